@@ -3,7 +3,7 @@ CONSTANTS
   KF_IntermediateAKCounts = FALSE
   MaxSigners = 3
   NestedChoices = 2
-  WithNegative = FALSE
+  WithNegative = TRUE
   MaxOps = 100
 CONSTRAINT Dump
 CHECK_DEADLOCK FALSE
